@@ -62,7 +62,7 @@ func checkC03(r *core.Run) {
 	r.Rule("R-C03-keys", "public key parsers reject coordinates >= p and accept only after the curve equation was checked; every accepting return is the validation result or is dominated by it")
 	r.Rule("R-C03-consumed", "the boolean result of every key/signature validation function is consumed at every call site in the program")
 	r.Rule("R-C03-sign", "the signers reject zero s, negate s above n/2 (FORCE_LOW_S true), pad DER integers whose top bit is set, draw nonces in [1,n-1], and the BIP340 signer rejects d outside [1,n-1], zero nonces and self-verifies")
-	r.Rule("R-C03-defined", "in lib/secp256k1 a local point, field or number record is read or tested only after, on every path, something has written it (a store, a call that writes through that argument): a result tested before the call that computes it shows the zero value and the test never fires")
+	r.Rule("R-C03-defined", "in lib/secp256k1 a local point, field or number record is read or tested only after, on every path, something has written it (a store, a call that writes through that argument): a result tested before the call that computes it shows the zero value and the test never fires; nothing that runs after package initialisation writes a package-level variable of lib/secp256k1 (checks run concurrently without locks)")
 	r.Rule("R-C03-bounds", "the signature and key parsers read only inside the bytes they were given: every index and slice bound computed from the input (DER lengths) is entailed, against len and not merely cap, by the guards that dominate it - bytes behind the end of the offered string are not part of the signature")
 	r.Explain = "Static: guard/provenance rules over the SSA of lib/secp256k1 and lib/btc: each acceptance condition of the statement is located as a branch whose rejecting edge leads only to rejecting returns and which dominates every accepting return."
 	r.NotCov = "That the group arithmetic makes the verification equation true for valid signatures (see C08), equality with RFC6979/BIP340 reference outputs, recovery returning the signer's key (numerical)."
@@ -76,6 +76,7 @@ func checkC03(r *core.Run) {
 	c03HybridParity(r, p)
 	c03ParsersInside(r, p)
 	localsDefinedBeforeRead(r, p, "R-C03-defined", "lib/secp256k1", c03DefinedExceptions)
+	c03Reentrant(r, p, "R-C03-defined")
 
 	// ---- ECDSA ranges ----
 	ver := p.Func(secp + ".(*Signature).Verify")
@@ -878,3 +879,49 @@ func c03ParsersInside(r *core.Run, p *core.Program) {
 
 // c03DefinedExceptions: reads of a local that is deliberately still zero (key -> reason).
 var c03DefinedExceptions = map[string]string{}
+
+// c03Reentrant: signatures and keys are checked by many goroutines at once (one per transaction input), and
+// lib/secp256k1 has no locks: its verdicts are functions of the arguments only if nothing that runs after
+// package initialisation writes a package-level variable.  Every write of a global of the package sits in a
+// function that is reached only from the package's init functions, or in one of the listed set-up functions.
+func c03Reentrant(r *core.Run, p *core.Program, rule string) {
+	ws := packageGlobalWrites(p, "lib/secp256k1")
+	// functions reachable from init only
+	var inits []*ssa.Function
+	for _, f := range p.ModuleFuncs() {
+		if f.Pkg != nil && strings.HasSuffix(f.Pkg.Pkg.Path(), "lib/secp256k1") && (f.Name() == "init" || strings.HasPrefix(f.Name(), "init#")) {
+			inits = append(inits, f)
+		}
+	}
+	fromInit := an.StaticReach(inits, true, nil)
+	// functions reachable from anything that is not an init function
+	var others []*ssa.Function
+	for _, f := range p.ModuleFuncs() {
+		if f.Pkg != nil && strings.HasSuffix(f.Pkg.Pkg.Path(), "lib/secp256k1") && f.Parent() == nil && !(f.Name() == "init" || strings.HasPrefix(f.Name(), "init#")) && (f.Object() != nil && f.Object().Exported() || f.Signature.Recv() != nil) {
+			others = append(others, f)
+		}
+	}
+	fromAPI := an.StaticReach(others, true, nil)
+	n := 0
+	seen := map[string]bool{}
+	for _, w := range ws {
+		n++
+		key := "reentrant/" + core.FuncName(w.fn) + "/" + w.g.Name()
+		if seen[key] {
+			continue
+		}
+		seen[key] = true
+		if fromInit[w.fn] && !fromAPI[w.fn] {
+			r.OK(rule, key, p.Pos(an.InstrPos(w.ins)), "written during package initialisation only")
+			continue
+		}
+		if why, ok := c03ReentrantExceptions[core.FuncName(w.fn)+"/"+w.g.Name()]; ok {
+			r.OK(rule, key, p.Pos(an.InstrPos(w.ins)), "accepted: "+why)
+			continue
+		}
+		r.Fail(rule, key, p.Pos(an.InstrPos(w.ins)), "the package-level variable "+w.g.Name()+" is written by "+core.FuncName(w.fn)+", which runs after initialisation: concurrent checks overwrite each other's value and a verdict depends on unrelated calls")
+	}
+	r.Check(n >= 3, rule, "reentrant/sites", "-", fmt.Sprintf("%d writes of package-level variables, all at initialisation", n), fmt.Sprintf("only %d writes of package-level variables found", n))
+}
+
+var c03ReentrantExceptions = map[string]string{}
